@@ -310,7 +310,7 @@ def rebuild_in_top(p, rng):
             if c: d = rg.choice(c)
             else:
                 d = new(q.getWidth()); p.Buf(t, 'rb%d' % i, pick(), d)
-            p.Reg(t, 'r%d' % i, d, q, enable=rg.choice([None, pick1()]), reset=rg.choice([None, pick1()]), reset_value=rg.choice([None, 0, 1, (1 << q.getWidth()) - 1]))
+            p.Reg(t, 'r%d' % i, d, q, enable=rg.choice([None, pick1()]), reset=rg.choice([None, pick1()]), reset_value=rg.choice([None, 0, 1, (1 << q.getWidth()) - 1, -1, -3]))
         for o in O:
             c = [w for w in pool if w.getWidth() == o.getWidth() and w not in I]
             if c: p.Buf(t, 'o_' + o.name, rg.choice(c), o)
